@@ -171,7 +171,10 @@ def main():
     for r in reports:
         for k, v in (r.get('extra') or {}).items():
             if isinstance(v, (int, float)) and not isinstance(v, bool):
-                extra[k] = extra.get(k, 0) + v
+                if k.startswith('max_'):
+                    extra[k] = max(extra.get(k, 0), v)
+                else:
+                    extra[k] = extra.get(k, 0) + v
             elif isinstance(v, dict):
                 d = extra.setdefault(k, {})
                 for kk, vv in v.items():
